@@ -516,7 +516,7 @@ func main() {
 	}
 	// a second, shorter watchdog for the execution of one program (the first one also covers the oracle build):
 	// a program that deadlocks in the interpreter is reported after 90 s with the program as input
-	limit2 := 90 * time.Second
+	limit2 := 180 * time.Second
 	if raceEnabled || a.Thorough() {
 		limit2 = limit
 	}
